@@ -73,6 +73,16 @@ fn clpz_prog(r: &mut Rng) -> Prog {
         let pos = r.below(body.len() + 1);
         body.insert(pos, PG::Eq(var(r), num(r)));
     }
+    // tree disequalities on the operands, mostly posted BEFORE the constraint that determines the operand: a stored
+    // disequality must be re-run (and its key re-normalised) when CLP(Z) binds its variable (seeded change C23-j)
+    if r.chance(1, 2) {
+        for _ in 0..1 + r.below(2) {
+            let pos = if r.chance(2, 3) { 0 } else { r.below(body.len() + 1) };
+            let rhs = if r.chance(2, 3) { num(r) } else { var(r) };
+            let (a, b) = (var(r), rhs);
+            body.insert(pos, if r.chance(1, 2) { PG::Neq(a, b) } else { PG::Neq(b, a) });
+        }
+    }
     Prog { nvars: nv, nq: nv, take: 0, body, raw: false }
 }
 
